@@ -14,3 +14,13 @@ pub(crate) fn to_key<const N: usize>(
     }
     key_bytes.as_ref().try_into().map_err(|_| msg.into())
 }
+
+/// Key for the `pfx` mode: 32 bytes whose two 16-byte halves differ (`IpcryptPfx::new` panics
+/// on equal halves).
+pub(crate) fn to_pfx_key(key: Value, ip_ver: &str) -> Result<[u8; 32], ExpressionError> {
+    let key = to_key::<32>(key, "pfx", ip_ver)?;
+    if key[..16] == key[16..] {
+        return Err("pfx mode requires a key whose two 16-byte halves differ".into());
+    }
+    Ok(key)
+}
